@@ -29,7 +29,7 @@ SIZES = [(1, 3), (4, 8), (9, 24)]
 def gen(R, tier):
     lo, hi = R.choice(SIZES)
     style = R.choice(['plain', 'branchy', 'ringy', 'symbols', 'annotated', 'mixed', 'mixed'])
-    kw = dict(max_nodes=hi)
+    kw = dict(max_nodes=hi, min_nodes=lo)
     if style == 'plain':
         kw.update(p_branch=0.15, p_ring=0.05, p_sym=0.1)
     elif style == 'branchy':
